@@ -96,6 +96,23 @@ Definition passthrough (h : host) : env :=
 Definition initial_env (h : host) (s : nat) (adds : env) : env :=
   resolve_all h s setup_env_head ++ passthrough h ++ resolve_all h s setup_env_tail ++ adds.
 
+(* Env.Vars as setup() builds it, before Params.Setup sees it *)
+Definition base_env (h : host) (s : nat) : env :=
+  resolve_all h s setup_env_head ++ passthrough h ++ resolve_all h s setup_env_tail.
+
+(* What Params.Setup does to the list before it appends its own variables: nothing (None), or it keeps
+   the entries whose names are on an allow-list (Some l; Some [] = it drops everything: Env.Vars nil or
+   empty, which the model does not tell apart). *)
+Definition name_in (l : list name) (k : name) : bool := existsb (bytes_eqb k) l.
+Definition keep_env (keep : option (list name)) (e : env) : env :=
+  match keep with
+  | None => e
+  | Some l => filter (fun kv => name_in l (fst kv)) e
+  end.
+
+Definition setup_env (h : host) (s : nat) (keep : option (list name)) (adds : env) : env :=
+  keep_env keep (base_env h s) ++ adds.
+
 Definition src_host_names (l : list (name * env_src)) : list name :=
   flat_map (fun e => match snd e with SrcHost n => [n] | _ => [] end) l.
 
@@ -104,6 +121,7 @@ Definition host_reads : list name :=
   src_host_names setup_env_head ++ passthrough_names ++ src_host_names setup_env_tail.
 
 Definition PATH : name := [x50; x41; x54; x48].
+Definition PWD : name := [x50; x57; x44].
 
 (* ------------------------------------------------------------------ file tree below $WORK *)
 
@@ -322,13 +340,16 @@ Inductive action :=
   | AExec (neg : bool) (prog : name)     (* [!] exec prog ...: a foreground command that succeeds when it can be run *)
   | ASymlink (p : path) (tg : bytes)     (* symlink p -> tg *)
   | ARm (p : path)                       (* rm p *)
-  | AIfExec (neg : bool) (prog : name) (a : action).  (* [exec:prog] a   /   [!exec:prog] a *)
+  | AIfExec (neg : bool) (prog : name) (a : action)  (* [exec:prog] a   /   [!exec:prog] a *)
+  | ATSkip                               (* a custom command calling Skip on the T it got from Env.T() *)
+  | ATFail.                              (* a custom command calling FailNow / Fatal on that T *)
 
 Record script := {
   archive : list (path * bytes);     (* the files of the txtar archive, in order; names relative to $WORK *)
   work_named : list path;            (* those of them whose entry name is written $WORK/... in the archive *)
   escaping_at : option nat;          (* index of an entry whose name, expanded and made absolute, is not below
                                         $WORK (../x, /abs/x, $HOME/x); its path field is then meaningless *)
+  setup_keep : option (list name);   (* the allow-list Params.Setup filters Env.Vars with, if it does *)
   setup_adds : env;                  (* variables Params.Setup appends *)
   setup_defers : list (nat * bool);  (* Env.Defer calls made by Params.Setup, in order *)
   setup_err : bool;                  (* Params.Setup returns an error *)
@@ -403,6 +424,11 @@ Record config := {
   empty_cleans : bool;    (* RunT with no script at all removes the root itself (true) or leaves it *)
   continue_on_error : bool; (* Params.ContinueOnError *)
   has_cancel : bool;    (* Params.Deadline set: cancel is not nil *)
+  pwd_appended : bool;  (* exec / execBackground give the program append(ts.env, "PWD="+ts.cd) (true) or ts.env
+                           itself, which os/exec replaces by the environment of the test process when it is nil *)
+  precancel_guarded : bool; (* outside the subtests RunT calls cancel() / removes the root only when there is no
+                               script at all (true); false: it also does so, before any script has started,
+                               under some retention setting *)
   is_root : bool;       (* the test process ignores permission bits *)
   hostenv : host;
   hosttab : list ((bytes * name) * bool);  (* execpath.Look over directories no script writes to *)
@@ -437,7 +463,20 @@ Definition cached_look (cfg : config) (s : nat) (c : cache) (ss : sstate) (prog 
   | None => let v := look cfg s (tr ss) pv prog in (v, (k, v) :: c)
   end.
 
-Inductive outcome := OCont | OFail | OSkip | OStop | OPanic | OStuck.
+Inductive outcome := OCont | OFail | OSkip | OStop | OPanic | OStuck | OSkipNow | OFailNow.
+
+(* Background commands whose handle is in 30..49 are started by the absolute path of the program: no
+   PATH is consulted. *)
+Definition bg_by_path (h : nat) : bool := Nat.leb 30 h && Nat.ltb h 50.
+
+(* The environment of a program the script starts.  exec and execBackground pass append(ts.env,
+   "PWD="+ts.cd): the list is never nil and PWD names the directory the program runs in.  Passing ts.env
+   itself would hand os/exec a nil slice whenever the script has no variable at all, and a nil Cmd.Env
+   means "the environment of the current process". *)
+Definition host_as_env (h : host) : env := map (fun kv => (fst kv, VLit (snd kv))) h.
+Definition child_env (cfg : config) (s : nat) (cd : path) (e : env) : env :=
+  if pwd_appended cfg then e ++ [(PWD, VWork s cd)]
+  else match e with [] => host_as_env (hostenv cfg) | _ => e end.
 
 Definition add_obs (ss : sstate) (l : list event) : sstate :=
   {| ph := ph ss; cwd := cwd ss; senv := senv ss; tr := tr ss; wpresent := wpresent ss;
@@ -540,10 +579,10 @@ Fixpoint exec_action (cfg : config) (s : nat) (c : cache) (ss : sstate) (a : act
   | ADefer id bad =>
       (c, add_obs (set_dstack ss ((id, bad) :: dstack ss)) [EvDeferReg id], OCont)
   | ABg h neg =>
-      if look cfg s (tr ss) (path_value (senv ss)) (helper cfg)
+      if bg_by_path h || look cfg s (tr ss) (path_value (senv ss)) (helper cfg)
       then (c, add_obs (set_bgl ss (bgl ss ++ [(h, neg)])) [EvBgStart h], OCont)
       else (c, ss, if neg then OCont else OFail)
-  | AProbe => (c, add_obs ss [EvProbe (cwd ss) (senv ss) (tr ss)], OCont)
+  | AProbe => (c, add_obs ss [EvProbe (cwd ss) (child_env cfg s (cwd ss) (senv ss)) (tr ss)], OCont)
   | AFail => (c, ss, OFail)
   | ASkip =>
       let '(waited, ok) := skip_wait (bgl ss) in
@@ -584,9 +623,51 @@ Fixpoint exec_action (cfg : config) (s : nat) (c : cache) (ss : sstate) (a : act
       let '(ans, c') := cached_look cfg s c ss prog in
       let ss1 := add_obs ss [EvCond prog ans] in
       if Bool.eqb ans (negb neg) then exec_action cfg s c' ss1 a' else (c', ss1, OCont)
+  | ATSkip => (c, ss, OSkipNow)
+  | ATFail => (c, ss, OFailNow)
   end.
 
 Definition any_bad (d : list (nat * bool)) : bool := existsb snd d.
+
+(* How a deferred function ends, told by its id and flag: it returns; it panics (flag; a call of
+   ts.Fatalf outside a script line is a panic too); it calls FailNow / Fatal (ids 200..299) or Skip (ids
+   300..399) on the T of the subtest, both of which leave through runtime.Goexit. *)
+Inductive dend := DRet | DPanic | DFailNow | DSkipNow.
+Definition defer_end (d : nat * bool) : dend :=
+  if snd d then DPanic
+  else if Nat.leb 200 (fst d) && Nat.ltb (fst d) 300 then DFailNow
+  else if Nat.leb 300 (fst d) && Nat.ltb (fst d) 400 then DSkipNow
+  else DRet.
+
+(* What the T of the subtest has recorded and how the goroutine is being left: the failed and skipped
+   marks, and whether a panic is on its way.  A panic raised while the goroutine is leaving through Goexit
+   goes on to the caller of the subtest function; a Goexit called while a panic is on its way aborts that
+   panic (the Go runtime: the deferred calls go on, the goroutine ends, nobody sees the panic). *)
+Record tmarks := { m_failed : bool; m_skipped : bool; m_panicking : bool }.
+Definition marks_of (v : verdict) : tmarks :=
+  match v with
+  | VPass | VStop => {| m_failed := false; m_skipped := false; m_panicking := false |}
+  | VFail | VSetupFail => {| m_failed := true; m_skipped := false; m_panicking := false |}
+  | VSkip => {| m_failed := false; m_skipped := true; m_panicking := false |}
+  | VPanic => {| m_failed := false; m_skipped := false; m_panicking := true |}
+  end.
+Definition after_defer (m : tmarks) (e : dend) : tmarks :=
+  match e with
+  | DRet => m
+  | DPanic => {| m_failed := m_failed m; m_skipped := m_skipped m; m_panicking := true |}
+  | DFailNow => {| m_failed := true; m_skipped := m_skipped m; m_panicking := false |}
+  | DSkipNow => {| m_failed := m_failed m; m_skipped := true; m_panicking := false |}
+  end.
+(* the verdict the marks amount to; the way the loop was left (stop, setup failure) is kept when the
+   marks are still those it gave *)
+Definition verdict_of_marks (v : verdict) (m : tmarks) : verdict :=
+  if m_panicking m then VPanic
+  else if m_failed m then match v with VSetupFail => VSetupFail | _ => VFail end
+  else if m_skipped m then VSkip
+  else match v with VStop => VStop | _ => VPass end.
+(* the deferred functions run most recent first: [d] is ts.deferred as a stack *)
+Definition defers_verdict (d : list (nat * bool)) (v : verdict) : verdict :=
+  verdict_of_marks v (fold_left after_defer (map defer_end d) (marks_of v)).
 
 (* setup() expands every entry name (ts.expand) and makes it absolute below the work directory
    (ts.MkAbs).  A name written $WORK/p is the file p of the work directory when $WORK is defined at
@@ -636,7 +717,7 @@ Inductive effect := NoEffect | Finished.
 Definition sstep (cfg : config) (p : script) (s : nat) (c : cache) (ss : sstate) : cache * sstate * effect :=
   match ph ss with
   | NotStarted =>
-      let e := initial_env (hostenv cfg) s (setup_adds p) in
+      let e := setup_env (hostenv cfg) s (setup_keep p) (setup_adds p) in
       let regs := map (fun d => EvDeferReg (fst d)) (setup_defers p) in
       match setup_result cfg p with
       | None =>
@@ -670,13 +751,17 @@ Definition sstep (cfg : config) (p : script) (s : nat) (c : cache) (ss : sstate)
                    set_ph ss' (Ending (if failedf ss' then VFail else VStop) SInt)
                | OPanic => set_ph ss' (Ending VPanic SDefers)
                | OStuck => set_ph ss' Stuck
+               (* T.Skip / T.FailNow called by a custom command: runtime.Goexit out of the line, straight to
+                  the deferred functions of run(); the background commands are still there *)
+               | OSkipNow => set_ph ss' (Ending VSkip SDefers)
+               | OFailNow => set_ph ss' (Ending VFail SDefers)
                end, NoEffect)
       end
   | Ending v SInt => (c, set_ph (add_obs ss (ev_int_all (bgl ss))) (Ending v SWait), NoEffect)
   | Ending v SWait => (c, set_ph (set_bgl (add_obs ss (ev_wait_all (bgl ss))) []) (Ending v SDefers), NoEffect)
   | Ending v SDefers =>
       (* func() { defer old(); f() }: every function runs, most recent first, even when one panics *)
-      let v' := if any_bad (dstack ss) then VPanic else v in
+      let v' := defers_verdict (dstack ss) v in
       (c, set_ph (set_dstack (add_obs ss (map (fun d => EvDeferRun (fst d)) (dstack ss))) []) (Ending v' SBgClean), NoEffect)
   | Ending v SBgClean =>
       (c, set_ph (set_bgl (add_obs ss (ev_int_all (bgl ss) ++ ev_wait_all (bgl ss))) []) (Ending v SCleanup), NoEffect)
@@ -743,7 +828,11 @@ Definition start (cfg : config) (progs : list script) : bstate :=
           then {| sh := {| root_present := false; refcount := 0; xcache := []; cancelled := has_cancel cfg; root_removals := 1 |};
                   scripts := [] |}
           else init progs
-  | _ => init progs
+  | _ => if precancel_guarded cfg then init progs
+         else (* os.Remove(testTempDir); cancel() before the first subtest: the scripts make the root again
+                 (MkdirAll) and run under a context that is already done *)
+              {| sh := {| root_present := true; refcount := length progs; xcache := []; cancelled := has_cancel cfg; root_removals := 1 |};
+                 scripts := map (fun _ => sstate0) progs |}
   end.
 
 Definition run (cfg : config) (progs : list script) (st : bstate) (sched : list nat) : bstate :=
